@@ -35,6 +35,8 @@ STRINGS = [
     ('sulfone', '{[#A][#B]}.{#A=CS(=O)(=O)[$],#B=[$]C}'),
     # a system of three molecules (each is less than half of the atoms)
     ('three', '{[#A][#B].[#A][#B].[#A][#B]}.{#A=CC[$],#B=[$]O}'),
+    # a single-atom molecule (counter ion) next to another molecule
+    ('salt', '{[#NA].[#AC]}.{#NA=[Na+],#AC=CC(=O)[O-]}'),
 ]
 SMILES = ['CCO', 'C1CCCCC1', 'c1ccccc1', 'CC(=O)[O-]', 'CCC[NH3+]', 'CCC#N', 'CCOC', 'CC(Cl)=C', 'C[N+](C)(C)C', 'OCC(O)CO']
 
